@@ -358,14 +358,17 @@ func (c *Check) Finish() {
 	}
 	fmt.Printf("SUMMARY property=%s tier=%s evaluations=%d distinct=%d states=%d transitions=%d exhaustive=%v violations=%d known=%d wall=%.1fs\n",
 		c.Prop, c.Tier, c.evaluations, len(c.sigs), states, trans, c.exhaustive, nviol, len(c.viol)-nviol, wall)
-	switch {
-	case len(c.internalErr) > 0:
-		for _, e := range c.internalErr {
+	for i, e := range c.internalErr {
+		if i < 20 {
 			fmt.Printf("INTERNAL-ERROR property=%s %s\n", c.Prop, e)
 		}
-		ExitCode.Store(3)
+	}
+	switch {
 	case nviol > 0:
+		// a violation that was reproduced on every re-run stands on its own, whatever else went wrong in the run
 		ExitCode.Store(1)
+	case len(c.internalErr) > 0:
+		ExitCode.Store(3)
 	}
 }
 
